@@ -750,10 +750,7 @@ struct Sim {
         note("T");
         const auto removed = to_set(removed_v, "Trim");
         if (!was_over) {
-            if (!removed.empty()) {
-                // tolerated only in the documented sticky situation (the real graph may still consider main oversized)
-                if (!(staging() == false && false)) fail("trim-removed-without-oversize", "Trim removed transactions although no cluster exceeds the limits");
-            }
+            if (!removed.empty()) fail("trim-removed-without-oversize", "Trim removed transactions although no cluster exceeds the limits");
             vh::log().obs("op_trim_noop");
             return;
         }
@@ -814,12 +811,22 @@ VH_CMD(txgraph)
         int op = 0;
         std::string last;
         try {
+            // initial population (so that large clusters and the 64-transaction limit are reached within the sequence)
+            const int init = std::vector<int>{0, 0, 6, 20, 40, 64}[rng.below(6)];
+            for (int i = 0; i < init; ++i) {
+                sim.op_add(fmode);
+                if (rng.chance(2, 3)) sim.op_dep_chain(1 + static_cast<int>(rng.below(2)));
+            }
+            if (init) {
+                sim.real->SanityCheck();
+                if (rng.coin()) sim.full_check(true);
+            }
             for (op = 0; op < nops; ++op) {
                 const uint64_t r = rng.below(100);
-                if (r < 26) sim.op_add(fmode), last = "add";
+                if (r < 28) sim.op_add(fmode), last = "add";
                 else if (r < 44) sim.op_dep(), last = "dep";
-                else if (r < (dep_heavy ? 54u : 46u)) sim.op_dep_chain(1 + static_cast<int>(rng.below(6))), last = "deps";
-                else if (r < 61) sim.op_remove(), last = "remove";
+                else if (r < (dep_heavy ? 56u : 48u)) sim.op_dep_chain(1 + static_cast<int>(rng.below(6))), last = "deps";
+                else if (r < 62) sim.op_remove(), last = "remove";
                 else if (r < 66) sim.op_destroy(), last = "destroy";
                 else if (r < 68) sim.op_move_ref(), last = "move";
                 else if (r < 75) sim.op_setfee(), last = "setfee";
